@@ -60,6 +60,7 @@ def rate_sets():
         out['rate%03d' % bits] = base + [sg[0] * DT, sg[1] * DT, sg[2] * DT, sg[3] * DS, sg[4] * DR, sg[5] * DR, sg[6] * DR]
     out['ratezero'] = base + [0.0] * 7
     out['rateonly'] = [0.0] * 7 + [0.00142, 0.00134, 0.0009, 0.000109, 0.0015461, 0.001182, 0.0011551]
+    out['intrates'] = [1, -2, 3, 1, 0, 0, 0, 1, 0, -1, 0, 1, -1, 0]       # Python ints
     return out
 
 
@@ -69,6 +70,9 @@ def get_trans(spec):
         return catalogue()[name]
     if kind == 'neg':
         return -catalogue()[name]
+    if kind == 'copy':
+        c = catalogue()[name]
+        return gc.Transformation(c.from_datum, c.to_datum, c.ref_epoch, *[getattr(c, f) for f in ALLF], tf_sd=c.tf_sd)
     v = rate_sets()[name]
     return gc.Transformation('A', 'B', datetime.date(2010, 1, 1), *v)
 
@@ -101,12 +105,40 @@ def points():
     return pts
 
 
-def advanced(t, epoch):
-    dt = F((epoch - t.ref_epoch).days) / F('365.25')
-    par = {}
-    for f in FIELDS:
-        par[f] = om.dec_str(getattr(t, f)) + om.dec_str(getattr(t, 'd_' + f)) * dt
-    return par, dt
+ALLF = FIELDS + ['d_' + f for f in FIELDS]
+# import-time parameters of every shipped set (the oracle never re-reads an object that a call may have modified)
+PRISTINE = {n: dict({f: om.dec_str(getattr(v, f)) for f in ALLF}, ref_epoch=v.ref_epoch) for n, v in catalogue().items()}
+
+
+def spec_par(spec):
+    """the 14 parameters + reference epoch a case refers to, from pristine data only"""
+    kind, name = spec if isinstance(spec, (list, tuple)) else ('const', spec)
+    if kind in ('const', 'copy'):
+        return dict(PRISTINE[name])
+    if kind == 'neg':
+        d = {f: -PRISTINE[name][f] for f in ALLF}
+        d['ref_epoch'] = PRISTINE[name]['ref_epoch']
+        return d
+    v = rate_sets()[name]
+    d = {f: om.dec_str(x) for f, x in zip(ALLF, v)}
+    d['ref_epoch'] = datetime.date(2010, 1, 1)
+    return d
+
+
+def advanced(spec, epoch):
+    p = spec_par(spec)
+    dt = F((epoch - p['ref_epoch']).days) / F('365.25')
+    return {f: p[f] + p['d_' + f] * dt for f in FIELDS}, dt
+
+
+def constants_intact(rec, one):
+    for n, v in catalogue().items():
+        for f in ALLF:
+            if om.dec_str(getattr(v, f)) != PRISTINE[n][f]:
+                rec.fail('a shipped parameter set was modified by a call (%s.%s)' % (n, f), site='transform:constant-modified',
+                         observed=getattr(v, f), expected=float(PRISTINE[n][f]), case=one, coords={'set': n, 'field': f})
+                return False
+    return True
 
 
 def gen_epoch(tier, seed):
@@ -125,7 +157,7 @@ def ev_epoch(case, rec):
     for es in case['epochs']:
         e = datetime.date.fromisoformat(es)
         one = dict(case, epochs=[es])
-        par, dt = advanced(t, e)
+        par, dt = advanced(case['trans'], e)
         s = abs(float(par['sc'])) * 1e-6
         theta = math.sqrt(sum(float(par[k]) ** 2 for k in ('rx', 'ry', 'rz'))) * math.pi / 648000
         tn = math.sqrt(sum(float(par[k]) ** 2 for k in ('tx', 'ty', 'tz')))
@@ -146,7 +178,7 @@ def ev_epoch(case, rec):
                          case=one, coords=dict(co, err=err, pt=pt))
                 rec.outcome('bad')
                 continue
-            if e == t.ref_epoch:
+            if e == spec_par(case['trans'])['ref_epoch']:
                 st7, r7 = rec.call(conform7, pt[0], pt[1], pt[2], t)
                 d7 = math.sqrt(sum((a - b) ** 2 for a, b in zip(r[:3], r7[:3])))
                 if not (d7 <= 1e-7):
@@ -167,7 +199,44 @@ def ev_epoch(case, rec):
                 rec.outcome('bad')
             else:
                 rec.outcome('ok')
+    constants_intact(rec, dict(case, epochs=case['epochs'][:1]))
     rec.sample({'trans': case['trans'], 'epochs': case['epochs'][:3]})
+
+
+# --- object identity: different sets built, used once and dropped, alternating at the same epoch -------------------
+ID_SETS = ['itrf2014_to_gda2020', 'itrf2008_to_gda94', 'itrf2005_to_gda94', 'itrf2020_to_itrf2014', 'itrf2020_to_itrf93',
+           'itrf2014_to_itrf2008', 'itrf2000_to_itrf88', 'gda94_to_itrf2000']
+
+
+def gen_identity(tier, seed):
+    for es in ('2030-01-01', '1985-07-01', '2020-01-01', '2000-02-29'):
+        yield {'epoch': es, 'sets': ID_SETS}
+
+
+def ev_identity(case, rec):
+    e = datetime.date.fromisoformat(case['epoch'])
+    pt = points()[8]
+    for rnd in range(3):
+        for kind in ('copy', 'neg'):
+            for name in case['sets']:
+                spec = [kind, name]
+                # a temporary: built, used once, dropped -> CPython hands its address to the next one
+                st, r = rec.call(lambda: conform14(pt[0], pt[1], pt[2], e, get_trans(spec)))
+                one = {'epoch': case['epoch'], 'sets': [name], 'kind': kind}
+                if st != 'ok':
+                    rec.fail('conform14 raised on a temporary set', site='transform:conform14:temporary', observed=r, case=one)
+                    continue
+                rec.nontriv((case['epoch'], kind, name, rnd))
+                rec.state(('id', name, kind) + tuple(float(v).hex() for v in r[:3]))
+                par, dt = advanced(spec, e)
+                err = float(om.dist3(r[:3], om.helmert_mp(pt, par)))
+                if not (err <= 2e-6):
+                    rec.fail('conform14 with a temporary parameter set does not use that set (stale state keyed on object identity?)',
+                             site='transform:conform14:temporary', observed=list(r[:3]), tol=2e-6, case=one, coords={'err': err, 'round': rnd})
+                    rec.outcome('identity-bad')
+                else:
+                    rec.outcome('identity-ok')
+    rec.sample(case)
 
 
 def gen_wrap(tier, seed):
@@ -181,7 +250,7 @@ def ev_wrap(case, rec):
     for es in case['epochs']:
         e = datetime.date.fromisoformat(es)
         one = {'epochs': [es]}
-        par, dt = advanced(apm, e)
+        par, dt = advanced('atrf2014_to_gda2020', e)
         theta = math.sqrt(sum(float(par[k]) ** 2 for k in ('rx', 'ry', 'rz'))) * math.pi / 648000
         for pt in points():
             st, r = rec.call(transform_atrf2014_to_gda2020, pt[0], pt[1], pt[2], e)
@@ -223,6 +292,7 @@ def ev_wrap(case, rec):
                              observed=[list(r[:3]), list(q[:3])], expected=pt, case=one)
                 rec.outcome('identity')
         rec.outcome('ok')
+    constants_intact(rec, case)
     rec.sample(case)
 
 
@@ -246,7 +316,7 @@ def ev_cov(case, rec):
     for es in case['epochs']:
         e = datetime.date.fromisoformat(es)
         one = dict(case, epochs=[es])
-        par, dt = advanced(t, e)
+        par, dt = advanced(case['trans'], e)
         with mp.workdps(40):
             sd = {k: mp.sqrt(om._m(sd0[k]) ** 2 + (om._m(sdd[k]) * om._m(dt)) ** 2) for k in SD_FIELDS}
         for mi, m in enumerate(mats):
@@ -289,6 +359,7 @@ def ev_cov(case, rec):
 
 SUBCHECKS = [
     Sub('epoch', gen_epoch, ev_epoch, chunk=2, floor=1000),
+    Sub('identity', gen_identity, ev_identity, chunk=1, floor=100),
     Sub('wrappers', gen_wrap, ev_wrap, chunk=1, floor=200),
     Sub('covariance', gen_cov, ev_cov, chunk=1, floor=50),
 ]
